@@ -3,6 +3,7 @@
 the sensitivity matrix (seeded/<name>/matrix.txt), and prints the table for DESIGN.md section 6."""
 import json, os, re, sys
 S = "/verif/seeded"
+TAG = next((a.split("=")[1] for a in sys.argv if a.startswith("--tag=")), "")
 DESC = {
  "C01-m1": ("src/var.rs did_set_var_while_not_stabilising: early return when the watch node is unnecessary (set_at not bumped)", "var computed once, loses all observers (+stabilise), is written, is observed again"),
  "C01-m2": ("src/node.rs became_unnecessary: map_ref no longer resets its 'projection changed' flag", "map_ref chain used as pre-existing bind rhs; same round: input written with equal projection AND bind switches away (input written first, input has an earlier parent); later the projection changes while unneeded; bind switches back"),
@@ -84,6 +85,46 @@ DESC = {
  "C19-m4": ("src/state.rs stabilise entry guard only refuses Stabilising", "stabilise called from a subscribe / on_update handler with pending work: runs instead of panicking at once"),
  "C20-m3": ("src/public.rs weak_memoize_fn: entry().or_insert_with (same as C20-m2)", "request key, drop all references, request again before a stabilise, request again"),
  "C20-m4": ("src/state.rs within_scope: early return when the *current* scope is Top", "memoised function created inside a bind closure and handed out; a missing key requested from top level; creation-scope bind re-runs"),
+ "C01-m5": ("src/node.rs change_child_bind_rhs: force_necessary set after state_add_parent (too late)", "bind first returns pre-existing x, then x.map(..); sibling of x observed earlier; later the bind is dropped and the shared input written (dangling duplicate parent entry cuts propagation short)"),
+ "C01-m6": ("src/adjust_heights_heap.rs remove_min: 'in adjust-heights heap' marker never cleared", "inner bind grows twice; second lift not propagated; outer bind switches away and back in consecutive stabilises"),
+ "C02-m5": ("src/node.rs maybe_change_value_manual: direct-recompute decision before the other parents are queued", "diamond joined first / same node twice as input (x.map2(&x, ..))"),
+ "C02-m6": ("src/adjust_heights_heap.rs: set_height folded into add_unless_mem (second, higher raise of a queued node lost)", "q = m.map, r = m.map2(&q), only r observed, bind m re-binds to a taller rhs"),
+ "C03-m5": ("src/node.rs maybe_change_value_manual: direct-recompute decision before the other parents are queued", "v.bind(|x| v.map(..x..)) with the rhs node ahead of the change node in v's parent list (observe rhs, unobserve bind, re-observe)"),
+ "C03-m6": ("src/node.rs adjust_heights_bind_lhs_change: skips rhs nodes already in the adjust-heights heap", "ancestor whose height jumps feeds the bind's lhs by a longer path and the rhs node's input by a shorter one; change node goes through the heap"),
+ "C04-m5": ("src/state.rs stabilise_end: dead_vars before set_during_stabilisation (same as C04-m1)", "var written from a node function and its last handle dropped in the same stabilise"),
+ "C04-m6": ("src/kind/expert.rs swap_children: index cells of the two edges not swapped", "expert node: remove a non-last dependency, then remove the edge that removal relocated"),
+ "C05-m5": ("src/node.rs invalidate_node: remove_children after is_valid is cleared (kind() is then None)", "bind-created node kept needed from outside; bind input changes; later all observers dropped; write"),
+ "C05-m6": ("src/state.rs unlink_disallowed_observers: 'still needed' cache skips the second observer of the same node", "two distinct observers of one node dropped/disallowed together"),
+ "C06-m5": ("src/node.rs maybe_change_value_manual: non-first parent queued before child_changed (map_ref cutoff never consulted)", "map_ref whose input has >= 2 parents and is not linked first; write leaving the projection unchanged"),
+ "C06-m6": ("src/var.rs set_var_while_not_stabilising: early return when the new value equals the stored one", "var with Never / fn cutoff; set() of an equal value"),
+ "C07-m5": ("src/state.rs stabilise_start: status set to Stabilising after observers are linked", "expert node with an on_observability_change callback that reads an observer / writes a var when it becomes (un)observed"),
+ "C07-m6": ("src/node.rs MapRef child_changed: missed_changes = recomputed_at.is_never()", "map_ref re-linked after missing a change of the projected field; next write changes another field only"),
+ "C08-m5": ("src/state.rs stabilise_end: handlers before deferred writes (same as C08-m4)", "same var written from a node function and a handler in one stabilise"),
+ "C08-m6": ("src/var.rs Var::set while stabilising: early return when the value equals the pre-stabilise value", ">= 2 deferred writes to one var in one stabilise, the last a set() back to the pre-stabilise value"),
+ "C09-m5": ("src/state.rs stabilise_end: is_in_handle_after_stabilisation cleared after the node's handlers ran", "subscription made from inside a callback on an observer whose node is handled in the same round and does not change in the next"),
+ "C09-m6": ("src/internal_observer.rs subscribe: token = handlers.len() + 1", "subscribe A, subscribe B, unsubscribe A, subscribe C: C replaces B"),
+ "C10-m5": ("src/internal_observer.rs subscribe: handler inserted before the state check (rejected subscribe leaves an entry)", "disallowed observer (handle kept) is subscribed to before the next stabilise; sibling observer with a subscription"),
+ "C10-m6": ("src/state.rs add_new_observers: Unlinked treated like Created", "observe, disallow_future_use before any stabilise, handle kept: becomes InUse"),
+ "C11-m5": ("src/node.rs try_fold_children (BindMain): rhs child visited before the lhs-change child", "bind becomes necessary a second time while it already has a rhs"),
+ "C11-m6": ("src/node.rs remove_children: unlink all edges first, then check_if_unnecessary", "teardown of a node whose inputs contain the same node twice (or one depending on the other)"),
+ "C12-m5": ("src/state.rs: dead_vars drained at stabilise_start instead of stabilise_end", "last Var handle owned by a closure inside the graph; observer dropped before the stabilise"),
+ "C12-m6": ("src/state.rs stabilise_end: dead_vars before deferred writes (same as C04-m1)", "var written from a node function and its last handle dropped in the same stabilise"),
+ "C13-m5": ("src/state.rs: status assertion and Stabilising flag after add_new_observers/unlink", "handler panic; then a new observer and a (refused) stabilise: the observer becomes readable with a stale cached value"),
+ "C13-m6": ("src/internal_observer.rs value_inner: Created treated like InUse", "second observer of a previously computed node created after a handler panic and read"),
+ "C14-m5": ("src/node.rs expert_add_dependency: edge pushed after state_add_parent (link-time callback finds nothing)", "expert node that already ran gains a dependency with callback on an unchanged child with a value"),
+ "C14-m6": ("src/state.rs propagate_invalidity: invalid-children count only bumped when the expert node is not queued", "expert node keeps a dependency on an invalidated child while it is already in the recompute heap"),
+ "C15-m5": ("incremental-map UnorderedFold::update default: add before remove (same as C15-m3)", "key-indexed accumulator; value of an existing key changes"),
+ "C15-m6": ("im_rc.rs PartitionMapi::update: body reduced to that of add", "value change that flips a key's side: stale entry stays on the old side"),
+ "C16-m5": ("src/node.rs expert_add_dependency ordering (same as C14-m5)", "per-key function returns a shared pre-existing node; key added in a later round; shared node unchanged"),
+ "C16-m6": ("src/node.rs expert_swap_children_except_in_kind (same child): child-side index entries not swapped", "shared node for >= 2 keys; remove a key that is not the newest; shared node changes"),
+ "C17-m5": ("incr_(filter_)mapi_: lhs_change returns prev_nodes.len()", "round in which the key count changes: every per-key node recomputes (visible under Cutoff::Never)"),
+ "C17-m6": ("src/kind/expert.rs observability_change: force_stale set when the node becomes unnecessary", "observe, unobserve, observe again with no edit: every per-key node recomputes"),
+ "C18-m5": ("symmetric_fold.rs BTreeMap fold: disjoint-ranges fast path emits old then new", "disjoint key ranges with the new map entirely below the old one"),
+ "C18-m6": ("im_rc.rs OrdMap fold: 'other is empty' fast path folds self as Right", "non-empty OrdMap against an empty one"),
+ "C19-m5": ("src/state.rs stabilise_start: Stabilising flag set after observers are linked", "height-limit panic while linking a new observer whose too-tall subtree is under a non-last input: dropping afterwards panics"),
+ "C19-m6": ("src/node.rs: same-state assertion only for the first rhs of a bind", "bind closure returns a node of another state on a later run"),
+ "C20-m5": ("src/node.rs change_child_bind_rhs: remove_parent before the 'same node' early return", "bind closure re-runs and returns the identical (memoised) node"),
+ "C20-m6": ("src/public.rs weak_memoize_fn: dead-entry path calls f without within_scope", "key re-created while its dead entry is still in the map, from inside a bind closure; that bind re-runs while the node is shared"),
 }
 rows = []
 for name in sorted(os.listdir(S)):
@@ -101,6 +142,8 @@ for name in sorted(os.listdir(S)):
             if len(f) < 5:
                 continue
             cid, seed, rc, rev = f[1], f[2], f[3], f[4]
+            if TAG and not rev.endswith("/" + TAG):
+                continue
             key = re.search(r"key: (\S+)", line)
             final[(cid, seed)] = (rc, rev, key.group(1) if key else "")
     for (cid, seed), (rc, rev, key) in sorted(final.items()):
@@ -111,7 +154,7 @@ for name in sorted(os.listdir(S)):
     what, needs = DESC.get(name, ("", ""))
     meta = {
         "name": name, "property": prop, "change": what, "needs_to_manifest": needs,
-        "source": "independent sub-agent given only the property text and a scratch worktree" + (" (second round: plus a focus area per mutant)" if name[-1] in "34" else ""),
+        "source": "independent sub-agent given only the property text and a scratch worktree" + (" (second round: plus a focus area per mutant)" if name[-1] in "34" else " (third round: plus a flavour per mutant: ordering bug / second occurrence or degenerate shape)" if name[-1] in "56" else ""),
         "confirmed": bool(m and m.group(1) == "0" and m.group(2) == "0" and m.group(3) != "0"),
         "what_i_ran": [
             "tools/seed_confirm.sh: scratch worktree of /repo; clean tree: cargo test --test seed_demo passes; patch applied: cargo test --workspace --no-fail-fast --offline passes, seed_demo fails (see confirm.log)",
